@@ -129,6 +129,39 @@ def reset_on_frame(F, R):
             r = call_bool_branch(u, bi)
             if r and r[0] != 'discr':
                 somes.append((r[0], r[1], r[2]))
+    if not somes:
+        # the test may be done by the caller and handed in as a bool: `update_timer(item.is_some(), remains)` - then every call
+        # site passes `is_some()` of the decoded item, and update_timer branches on that parameter
+        for ai in range(2, u.argc + 1):
+            if (u.local_ty(ai) or '') != 'bool':
+                continue
+            sites_ok, nsites = True, 0
+            for cb in F.bodies.values():
+                for bi, t in cb.calls_to(r'^io::DispatcherInner::<P, C, U, E>::update_timer$'):
+                    nsites += 1
+                    og = Origin(cb).of_operand(t['args'][ai - 1])
+                    calls_ = [l for l in og if l[0] == 'call']
+                    ok_ = len(calls_) == 1 and calls_[0][1].endswith('Option::<T>::is_some') and \
+                        (call_recv_path(cb, cb.blocks[calls_[0][2]]['term'], 0) or ('',))[-1] == 'item' and not any(l[0] in ('binop', 'const') for l in og)
+                    sites_ok = sites_ok and ok_
+            r = bool_branch(u, 0, ai) if nsites and sites_ok else None
+            if r is None and nsites and sites_ok:
+                for sb_ in sorted(u.live):
+                    t_ = u.blocks[sb_]['term']
+                    if t_['k'] == 'switch' and const_of_local(u, t_['discr']) is None:
+                        p_ = op_place(t_['discr'])
+                        l_ = p_['l'] if p_ and not place_proj(p_) else None
+                        for _ in range(4):
+                            ds_ = [d for d in u.whole_defs(l_) if d[0] in u.live] if l_ is not None and l_ > u.argc else []
+                            if len(ds_) == 1 and ds_[0][2] == 'assign' and ds_[0][3]['rv']['k'] == 'use' and op_place(ds_[0][3]['rv']['op']) is not None:
+                                l_ = op_place(ds_[0][3]['rv']['op'])['l']
+                            else:
+                                break
+                        if l_ == ai and len(t_['targets']) == 1 and t_['targets'][0][0] == 0:
+                            r = (sb_, t_['otherwise'], t_['targets'][0][1])
+                            break
+            if r:
+                somes.append((r[0], r[1], r[2]))
     R.ob('C20.reset-on-frame', 'update_timer|tests decoded.item.is_some()', len(somes) == 1, 'found %d' % len(somes))
     for sb, yes, no in somes:
         reg = u.reachable(yes, avoid=[no])
@@ -276,6 +309,11 @@ def client_ping(F, R):
         starts = [b for b in F.find(r'^%s::client::connection::(Client|ClientRouter::<Err, PErr>)::start\w*::\{closure#0\}$' % ver)]
         R.floor('C20.client-ping', '%s client start* variants' % ver, len(starts), 5)
         for b in starts:
+            # a variant that only hands over to a sibling start* (every way out passes that call) inherits the sibling's wiring
+            dl = [bi for bi, t in b.calls_to(r'^%s::client::connection::(Client|ClientRouter::<Err, PErr>)::start\w*$' % ver)]
+            if dl and not list(b.calls_to(r'::spawn$')) and all(b.must_pass(dl, rb) for rb in b.returns()):
+                R.ob('C20.client-ping', '%s|spawns keepalive iff keepalive.non_zero()' % re.sub(r'::\{closure#0\}$', '', b.path), True, '', b.loc(dl[0]))
+                continue
             nz = []
             for bi, t in b.calls_to(r'Seconds::non_zero$'):
                 r = call_bool_branch(b, bi)
